@@ -96,6 +96,7 @@ type analyzer struct {
 	varLits    map[types.Object][]*ast.FuncLit // tracked local function variables -> literals that flow into them
 	tracked    map[*ast.FuncLit]bool
 	freshVar   map[types.Object]bool
+	sliceParam map[types.Object]bool // slice-typed parameters of functions and literals (caller-owned memory)
 	escapePos  map[types.Object]token.Pos
 	syncOK     map[string]bool
 	ifaceImpls map[*types.Func][]*types.Func
